@@ -21,6 +21,7 @@ RULE_DOC = {
     'R10': 'closure lift: `let NAME = move |typed params| { BODY };` -> fn NAME(typed params) { BODY } (closure captures nothing)',
     'R11': 'unit-specific type/identifier substitution listed in the unit template (real type replaced by a prelude shim whose contract is assumed)',
     'R12': 'std::cmp::{min,max}(a,b) -> min_T/max_T verified helpers; std::mem::take -> take_vec; float a.min(b)/a.max(b) -> fmin/fmax (uninterpreted)',
+    'R12c': 'f64::{MAX,MIN,MIN_POSITIVE,NAN,INFINITY,NEG_INFINITY,EPSILON} -> fconst_f64_*() getters with distinct uninterpreted spec constants (_shared/floats.rs)',
     'R13': 'lock-and-wait idiom on (Mutex, Condvar) -> single call on prelude Closed cell (blocking not modelled)',
     'R14': 'identifier hygiene for Verus keywords',
 }
@@ -302,6 +303,19 @@ def r4_bytes(text):
     return text, hits
 
 
+def r12c_float_consts(text):
+    hits = 0
+    m = mask(text)
+    parts, last = [], 0
+    for mt in re.finditer(r'\b(?:std::|core::)?f64::(MAX|MIN_POSITIVE|MIN|NAN|INFINITY|NEG_INFINITY|EPSILON)\b', m):
+        parts.append(text[last:mt.start()])
+        parts.append('fconst_f64_%s()' % mt.group(1).lower())
+        last = mt.end()
+        hits += 1
+    parts.append(text[last:])
+    return ''.join(parts), hits
+
+
 def r14_hygiene(text):
     hits = 0
     for kw in ('real', 'spec', 'proof', 'tracked', 'ghost', 'exec', 'open', 'closed'):
@@ -330,7 +344,8 @@ RULES = {
     'R12u64': lambda t: r12_minmax(t, 'u64'),
     'R12usize': lambda t: r12_minmax(t, 'usize'),
     'R12f': r12f_float_minmax,
+    'R12c': r12c_float_consts,
     'R14': r14_hygiene,
 }
 # order in which enabled rules are applied (R2 needs `.await` still present)
-ORDER = ['R8', 'R2', 'R1', 'R6', 'R12', 'R12u64', 'R12usize', 'R12f', 'R4', 'R3', 'R7', 'R5', 'R14']
+ORDER = ['R8', 'R2', 'R1', 'R6', 'R12', 'R12u64', 'R12usize', 'R12f', 'R12c', 'R4', 'R3', 'R7', 'R5', 'R14']
